@@ -1181,6 +1181,40 @@ pub struct W4World {
     pub dead: bool,
 }
 
+/// Endurance: one long linear execution (no branching) with the monitors of `cfg.mon` on — every request is
+/// answered, except that every 97th is lost, every 499th step is a power cycle of the slave and every
+/// 101st a user diagnostics request: counters that wrap after 2^8 / 2^16 requests or cycles, state that
+/// accumulates. Returns (steps executed, DP cycles completed); violations are reported by the monitors.
+pub fn endurance_run(cfg: &Arc<W4Cfg>, steps: u32) -> (u32, u64) {
+    let mut e = Exec::new(cfg);
+    let mut done = 0;
+    for k in 1..=steps {
+        let a = if k % 499 == 0 {
+            Act::PowerCycle
+        } else if k % 97 == 0 {
+            Act::ReqLost
+        } else if k % 101 == 0 {
+            Act::UserDiag(0)
+        } else {
+            Act::Answer
+        };
+        let a = if e.enabled(a) { a } else { Act::Answer };
+        if e.dead || !e.enabled(a) {
+            break;
+        }
+        e.apply(a);
+        done = k;
+        if e.dead {
+            break;
+        }
+        // keep the replay artefact of a late violation small: the path is not needed beyond its length
+        if e.path.len() > 4096 {
+            e.path.drain(..2048);
+        }
+    }
+    (done, e.mon.cycles_completed)
+}
+
 pub fn run_path(cfg: &Arc<W4Cfg>, acts: &[Act]) -> Exec {
     let mut e = Exec::new(cfg);
     for a in acts {
